@@ -45,7 +45,7 @@ def build(els, pos, cell):
     with silenced():
         return Atoms(atom_types=[types.index(e) for e in els], positions=np.array(pos, float),
                      atom_type_elements=types, atom_type_labels=types, atom_type_masses=[1.0] * len(types),
-                     cell=None if cell is None else np.array(cell, float))
+                     cell=None if cell is None else (np.array(cell) if all(isinstance(x, int) for r in cell for x in r) else np.array(cell, float)))
 
 
 def reference(els, pos, cell, radii):
@@ -110,6 +110,8 @@ IMAGES = [(0, 0, 0), (1, 0, 0), (0, -1, 0), (0, 0, 1), (1, 1, 0), (-1, 0, 1), (0
 CELLS = {
     "none": None,
     "ortho": [[6.0, 0, 0], [0, 7.5, 0], [0, 0, 9.0]],
+    "ortho-int": [[6, 0, 0], [0, 8, 0], [0, 0, 9]],          # a cell written with integer entries
+    "tilt-int": [[8, 0, 0], [3, 8, 0], [2, -2, 9]],
     "tilt+": [[8.0, 0, 0], [3.5, 8.0, 0], [2.0, 2.5, 8.5]],
     "tilt-": [[8.0, 0, 0], [-3.5, 8.0, 0], [2.5, -3.0, 9.0]],
 }
@@ -210,6 +212,15 @@ def structure_case(draw):
         if cell is not None:
             p = geom.wrap(C, p)
         pos.append(np.asarray(p, float).tolist())
+    if cell is not None and draw(st.integers(0, 5)) == 0:
+        # the same kind of cell written with integer entries (rounded up, so the widths only grow)
+        cell = [[int(np.ceil(x)) if x > 0 else int(np.floor(x)) for x in row] for row in cell]
+        C = np.array(cell, float)
+        if geom.perp_widths(C).min() > 5.7:
+            pos = [geom.wrap(C, p).tolist() for p in pos]
+            ck = ck + "-int"
+        else:
+            cell = C.tolist()
     xf = draw(st.sampled_from(["shift", "permute", "none", "edit"]))
     case = {"els": els, "pos": pos, "cell": cell, "xf": xf, "cell_cls": ck}
     if xf == "shift":
@@ -254,7 +265,10 @@ def structure_oracle(case, stats):
             C2 = None
             if cell is not None:
                 for ax in range(3):
-                    a.cell[ax, :] *= case["stretch"][ax]            # in-place edit of the cell (atoms stay inside)
+                    f_ = case["stretch"][ax]
+                    if np.asarray(a.cell).dtype.kind in "iu":
+                        f_ = 2 if f_ > 1.5 else 1                 # an integer-typed cell is stretched by an integer factor
+                    a.cell[ax, :] *= f_                            # in-place edit of the cell (atoms stay inside)
                 C2 = np.array(a.cell, float)
             j, fr = case["move"]
             a.positions[j] = geom.cart(C2 if C2 is not None else np.eye(3) * 12.0, fr)
